@@ -231,7 +231,7 @@ def run(ctx):
                "fetched page: the driver does not define these mixes, they are not generated")
     ctx.assume("one() is the first row of the *current* page (documented as a shortcut to current_rows[0]); it is not expected to look into later pages")
     maxlen = 4 if ctx.quick else 7
-    budget = 100 if ctx.quick else 450
+    budget = 60 if ctx.quick else 450      # CPU seconds of this worker (ctx.time_left)
     factories = [('tuple', tuple_factory), ('dict', dict_factory), ('named', named_tuple_factory)]
     makers = {'tuple': lambda r, k: (r, 'p%d' % k), 'named': lambda r, k: (r, 'p%d' % k), 'dict': lambda r, k: {'id': r, 'tag': 'p%d' % k}}
     nw = ctx.nworkers or 1
